@@ -82,6 +82,8 @@ type vscScenario struct {
 	//                                   sync.beforePut); "afterOp": right after the AbortN-th store operation of the repair
 	AbortN  int `json:"abort_n"`
 	FailPut int `json:"fail_put"` // the FailPut-th write of the repair fails (nothing is written)
+	// Clock: "" = far beyond the chain; "h+N" = the node's clock is at round (start height + N)
+	Clock string `json:"clock"`
 }
 
 // ---------------------------------------------------------------- fabricated chain
@@ -832,6 +834,12 @@ func vscRunScenario(t *testing.T, tr *vlib.Trace, sc vscScenario, seed int64) {
 	}
 	base := &vscObsStore{Store: raw, h: h}
 	clk := clock.NewFakeClockAt(time.Unix(ch.group.GenesisTime, 0).Add(vscPeriod * (vscChainLen + 2)))
+	if strings.HasPrefix(sc.Clock, "h+") {
+		off, _ := strconv.Atoi(sc.Clock[2:])
+		if r := int(sc.Start) + off; r >= 1 { // round R starts at genesis + (R-1) periods
+			clk = clock.NewFakeClockAt(time.Unix(ch.group.GenesisTime, 0).Add(vscPeriod * time.Duration(r-1)))
+		}
+	}
 	client := &vscClient{h: h}
 	ctx, cancel := context.WithCancel(context.Background())
 	sched := vlib.NewSched()
@@ -1126,6 +1134,33 @@ func vscRepairAbortScenarios() []vscScenario {
 	return out
 }
 
+// check + repair with every kind of target (0 = the CLI default, below / at / beyond the stored head) while the
+// node's clock is at or ahead of its head
+func vscRepairTargetScenarios() []vscScenario {
+	H := vscPT("Honest", "Honest", 0, 8)
+	sets := map[string][]vscPeerType{
+		"honest":  {H, H, H},
+		"failing": {vscPT("CloseEarly", "Honest", 0, 8), vscPT("Silent", "Silent", 0, 8), vscPT("CloseEarly", "CloseEarly", 0, 8)},
+		"lying":   {vscPT("WrongRound", "WrongRound", 0, 8), vscPT("BadSig", "BadSig", 0, 8), H},
+	}
+	var out []vscScenario
+	for _, chained := range []bool{true, false} {
+		c := "u"
+		if chained {
+			c = "c"
+		}
+		for _, tg := range []uint64{0, 4, 5, 8} {
+			for _, ck := range []string{"h+0", "h+1", "h+4"} {
+				for _, ps := range []string{"honest", "failing", "lying"} {
+					out = append(out, vscScenario{Name: fmt.Sprintf("repair-target%d-clock%s-%s-%s", tg, ck[2:], ps, c), Mode: "repair",
+						Chained: chained, Start: 5, Target: tg, Clock: ck, Corrupt: [][]any{{float64(2), "bad"}}, Peers: sets[ps]})
+				}
+			}
+		}
+	}
+	return out
+}
+
 func vscBuiltin(quick bool) []vscScenario {
 	H := func(hd uint64) vscPeerType { return vscPT("Honest", "Honest", 0, hd) }
 	var out []vscScenario
@@ -1194,9 +1229,10 @@ func TestVerifSyncClient(t *testing.T) {
 	if os.Getenv("VERIF_NOBUILTIN") == "" {
 		scs = append(scs, vscBuiltin(quick)...)
 		scs = append(scs, vscRepairAbortScenarios()...)
+		scs = append(scs, vscRepairTargetScenarios()...)
 	}
 	if os.Getenv("VERIF_ONLY") == "repair-abort" { // light entry point (also used by the C02 engine)
-		scs = vscRepairAbortScenarios()
+		scs = append(vscRepairAbortScenarios(), vscRepairTargetScenarios()...)
 	}
 	if os.Getenv("VERIF_ONLY") == "repair" { // light entry point of the C01 engine: every directed chain-repair scenario
 		scs = nil
@@ -1206,6 +1242,7 @@ func TestVerifSyncClient(t *testing.T) {
 			}
 		}
 		scs = append(scs, vscRepairAbortScenarios()...)
+		scs = append(scs, vscRepairTargetScenarios()...)
 	}
 	for i, sc := range scs {
 		vscRunScenario(t, tr, sc, seed*1000+int64(i))
